@@ -24,6 +24,7 @@ impl Bitstr {
 //@use bitstr.fns Bitstr::read assumed
 //@use bitstr.fns Bitstr::peek assumed
 //@use bitstr.fns Bitstr::substr assumed
+//@use bitstr.fns Bitstr::split_at assumed
 //@use bitstr.fns Bitstr::bits_range assumed
 //@use bitstr.fns Bitstr::append assumed
 //@use bitstr.fns Bitstr::invert assumed
